@@ -23,14 +23,50 @@ def findFact (ty field : String) : Option FieldFact :=
 of other packages, protobuf leftovers) pass through unchanged -/
 def tracked (ty : String) : Bool := fieldTable.any (·.ty == ty)
 
-/-- `clone` copies the field on every path: not missing, and not placed after an early return -/
-def cloneKeeps (r : FieldFact) : Bool := r.clone != "none" && !r.clone.startsWith "afterReturn"
+/-! ### guards
 
-/-- the value reaches the protobuf message -/
-def marshalKeeps (r : FieldFact) : Bool := !r.marshalTo.isEmpty
+The table also says *under which conditions* the most favourable write of a field happens
+(`marshalGuard`, `unmarshalGuard`, `cloneGuard`: the enclosing `if` / `range` / early-return
+conditions). ogfacts drops the harmless ones — a test of the carried field itself (or of the
+protobuf field it is rebuilt from) for being non-empty: nil and empty are the same catalogue —
+and lists them in `selfGuards` (pinned in Facts.lean). Whatever remains is a condition on
+*something else*: the field is lost whenever that condition is false, unless the guard is
+recorded here with its reason. A field marshalled only inside `if len(x.Other) > 0 { … }` is
+therefore *not carried*, and the coverage obligation breaks. -/
 
-/-- `unmarshal` rebuilds the field from a protobuf field that `marshal` wrote it to -/
-def unmarshalKeeps (r : FieldFact) : Bool := r.unmarshalFrom.any fun k => r.marshalTo.contains k
+/-- (struct, field, phase, guard) — the residual guards of the unchanged tree, each justified -/
+def guardAllowed : List (String × String × String × String) := [
+  -- the elements of a container are written inside the parent's loop over that container; the
+  -- guards are the container's own emptiness test and the loop (the container itself is the
+  -- row `RetentionPolicyInfo.MstVersions`, which must be carried unconditionally)
+  ("MeasurementVer", "Version", "marshal", "rpi.MstVersions != nil"),
+  ("MeasurementVer", "Version", "marshal", "range rpi.MstVersions"),
+  -- same for the schema map of a measurement (`CleanSchema.Marshal`, row `MeasurementInfo.Schema`)
+  ("SchemaVal", "Typ", "marshal", "cs != nil"), ("SchemaVal", "Typ", "marshal", "range *cs"),
+  ("SchemaVal", "EndTime", "marshal", "cs != nil"), ("SchemaVal", "EndTime", "marshal", "range *cs"),
+  -- same for the peers of a replica group (row `ReplicaGroup.Peers`)
+  ("Peer", "ID", "marshal", "len(rg.Peers) > 0"), ("Peer", "ID", "marshal", "range rg.Peers"),
+  ("Peer", "PtRole", "marshal", "len(rg.Peers) > 0"), ("Peer", "PtRole", "marshal", "range rg.Peers"),
+  ("Peer", "ID", "unmarshal", "len(pb.GetPeers()) > 0"), ("Peer", "ID", "unmarshal", "range pb.Peers"),
+  ("Peer", "PtRole", "unmarshal", "len(pb.GetPeers()) > 0"), ("Peer", "PtRole", "unmarshal", "range pb.Peers"),
+  -- transient (only the presence of the handle is persisted)
+  ("Data", "SQLite", "unmarshal", "pb.GetIsSQLiteEnabled()")
+]
+
+def guardsOK (r : FieldFact) (phase : String) (gs : List String) : Bool :=
+  gs.all fun g => guardAllowed.contains (r.ty, r.field, phase, g)
+
+/-- `clone` copies the field on every path: not missing, not placed after an early return, not
+under a condition on something else -/
+def cloneKeeps (r : FieldFact) : Bool :=
+  r.clone != "none" && !r.clone.startsWith "afterReturn" && guardsOK r "clone" r.cloneGuard
+
+/-- the value reaches the protobuf message, unconditionally -/
+def marshalKeeps (r : FieldFact) : Bool := !r.marshalTo.isEmpty && guardsOK r "marshal" r.marshalGuard
+
+/-- `unmarshal` rebuilds the field from a protobuf field that `marshal` wrote it to, unconditionally -/
+def unmarshalKeeps (r : FieldFact) : Bool :=
+  (r.unmarshalFrom.any fun k => r.marshalTo.contains k) && guardsOK r "unmarshal" r.unmarshalGuard
 
 def sel (f : FieldFact → Bool) (ty field : String) : Bool :=
   match findFact ty field with
